@@ -6,7 +6,7 @@ the box (needs crop . pad = id for the centred even padding, from the C09 window
 iwt is the adjoint of fwt, advertised shape = shape of W on the padded shape.
 Tie: hand model coq/model/Wavelet.v.  sigpy calls PyWavelets with mode='zero' on the input zero-padded
 about its centre to even lengths on every axis.  The wrapper (padding, cropping, packing, dtype) is
-compared EXACTLY (floats as IEEE bit patterns) with the model evaluated in Coq, where the results of the
+compared EXACTLY (floats relabelled injectively by their IEEE bit patterns) with the model evaluated in Coq, where the results of the
 implementation's own pywt.wavedecn / waverecn calls (recorded by wrapping those two functions inside this
 process) are passed in as the data of W and Wr.
 Oracle hypotheses: validated on the implementation for EVERY orthogonal wavelet PyWavelets lists
@@ -105,13 +105,28 @@ def rand_array(r, shape, dtype):
     return r.randn(*shape).astype(dtype)
 
 
-def bits(a):
-    """exact encoding: (re, im) IEEE-754 binary64 bit patterns as signed integers"""
-    a = np.asarray(a)
-    re_ = np.ascontiguousarray(np.real(a), dtype=np.float64).ravel().view(np.int64)
-    im_ = np.ascontiguousarray(np.imag(a), dtype=np.float64).ravel().view(np.int64) if np.iscomplexobj(a) \
-        else np.zeros(re_.shape, dtype=np.int64)
-    return list(zip(re_.tolist(), im_.tolist()))
+class Labeler:
+    """Exact, compact encoding of float arrays for the data-movement model: every distinct IEEE-754 binary64 bit
+    pattern occurring in one case gets a small integer label, +0.0 (pattern 0) is label 0 (the model's zero).
+    The relabelling is injective, so exact equality of labels == bitwise equality of the floats."""
+
+    def __init__(self):
+        self.ids = {0: 0}
+
+    def _lab(self, v):
+        i = self.ids.get(v)
+        if i is None:
+            i = self.ids[v] = len(self.ids)
+        return i
+
+    def __call__(self, a):
+        a = np.asarray(a)
+        re_ = np.ascontiguousarray(np.real(a), dtype=np.float64).ravel().view(np.int64).tolist()
+        if np.iscomplexobj(a):
+            im_ = np.ascontiguousarray(np.imag(a), dtype=np.float64).ravel().view(np.int64).tolist()
+        else:
+            im_ = [0] * len(re_)
+        return [(self._lab(u), self._lab(v)) for u, v in zip(re_, im_)]
 
 
 def relerr(a, b):
@@ -166,8 +181,9 @@ def run_case(sp, rng, c, want_coq=True):
             bad.append(("linop-apply", "fwt/iwt outputs", "linop outputs differ", max(relerr(ya, y), relerr(za, z))))
     if str(y.dtype) != c["dtype"] or str(z.dtype) != c["dtype"]:
         bad.append(("dtype", c["dtype"], [str(y.dtype), str(z.dtype)], 1.0))
-    if want_coq and (x.size + 2 * dec["arg"].size + 4 * y.size + 2 * z.size + rc["out"].size) <= 700:
+    if want_coq and (x.size + 2 * dec["arg"].size + 4 * y.size + 2 * z.size + rc["out"].size) <= 1600:
         dc = DCODE[c["dtype"]]
+        bits = Labeler()
         exprs.append("chk_fwt %s %s %s %s %s %s %s %s %s %s %s" % (
             L.zlist(shape), L.zzlist(bits(x)), L.zlist(dec["arg"].shape), L.zzlist(bits(dec["arg"])),
             L.zlist(packed.shape), L.zzlist(bits(packed)), L.zlist(y.shape), L.zzlist(bits(y)),
@@ -204,8 +220,8 @@ def run(ctx):
     ctx.notes.append("PyWavelets flags %d discrete wavelets as orthogonal; not covered by the property: %s"
                      % (len(flagged), sorted(set(flagged) - set(names))))
     maxlen = ctx.n(12, 24)
-    per_wave = ctx.n(6, 60)
-    ncoq = ctx.n(220, 2500)
+    per_wave = ctx.n(9, 60)
+    ncoq = ctx.n(320, 2500)
     cases = list(corpus_cases())
     for w in names:
         for _ in range(per_wave):
